@@ -21,7 +21,7 @@ sys.path.insert(0, os.path.dirname(os.path.abspath(__file__)))
 CODES = {1: "undeclared identifier", 2: "declared twice in one scope", 3: "identifier used at another type than declared", 4: "call with the wrong number or types of arguments", 5: "operator applied to operands of the wrong types",
          6: "unknown field / field access on a non-struct", 7: "index on a non-indexable value or non-integer index", 8: "composite literal does not fit the struct", 9: "value not assignable to the variable/field",
          10: "return does not fit the result type", 11: "condition is not bool", 12: "local variable declared and not used", 13: "import not used", 14: "switch case of another type", 15: "unknown type name", 16: "array literal element of another type",
-         17: "package used but not imported", 98: "expression block", 99: "checker fuel"}
+         17: "package used but not imported", 18: "constant expression: the exact result overflows the type, the divisor is a zero constant, or integer constants are divided at a float type", 98: "expression block", 99: "checker fuel"}
 
 
 def decode(o):
